@@ -289,6 +289,11 @@ func (eval Evaluator) evaluateInPlace(level int, el0 *rlwe.Ciphertext, el1 *rlwe
 			elOut.Value[i].CopyLvl(level, largest.Value[i])
 		}
 	}
+
+	// A receiver of larger degree than both operands does not keep its previous components.
+	for i := largest.Degree() + 1; i < elOut.Degree()+1; i++ {
+		elOut.Value[i].Zero()
+	}
 }
 
 func (eval Evaluator) matchScaleThenEvaluateInPlace(level int, el0 *rlwe.Ciphertext, el1 *rlwe.Element[ring.Poly], elOut *rlwe.Ciphertext, evaluate func(ring.Poly, uint64, ring.Poly)) {
